@@ -9,7 +9,7 @@ use refmodel::sgr::{self, SgrState, UlMode};
 
 /// Representative attribute groups for the exhaustive part: (text, underline class).
 /// underline class: 0 = not underline related, 1 = plain on, 2..5 = style n, 9 = 4:0 (off)
-pub const GROUPS: [(&str, u8); 44] = [
+pub const GROUPS: [(&str, u8); 50] = [
     ("0", 0),
     ("", 0),
     ("1", 0),
@@ -55,6 +55,14 @@ pub const GROUPS: [(&str, u8); 44] = [
     ("58:2:7", 0),
     ("48:5", 0),
     ("38:2", 0),
+    // surplus sub-parameters after a complete indexed colour: still that colour, nothing else
+    ("38:5:196:1", 0),
+    ("58:5:33:0", 0),
+    ("48:5:7:4:3", 0),
+    // underline styles the type cannot express (two readings, see check_text)
+    ("4:6", 1),
+    ("4:8", 1),
+    ("4:65535", 1),
 ];
 
 /// DESIGN 8.4: within one reset epoch at most one underline style; 4:0 only when the current style is plain / none.
@@ -109,7 +117,21 @@ fn extract(chunks: &[&[u8]]) -> (Runs, SgrState) {
 }
 
 pub fn check_text(data: &[u8], cuts: &[usize], st: Option<&mut Stats>) -> Result<(), (String, String)> {
-    let (want, want_fin) = sgr::interpret(data, UlMode::Select);
+    let first = check_text_reading(data, cuts, st, false);
+    if first.is_err() {
+        // `4:n` with a style the type cannot express may change nothing or be read as plain underline: a disagreement
+        // under the first reading only counts if the second does not explain the output either
+        let (a, _) = sgr::interpret(data, UlMode::Select);
+        let (b, _) = sgr::interpret_alt(data, UlMode::Select);
+        if a != b && check_text_reading(data, cuts, None, true).is_ok() {
+            return Ok(());
+        }
+    }
+    first
+}
+
+fn check_text_reading(data: &[u8], cuts: &[usize], st: Option<&mut Stats>, alt: bool) -> Result<(), (String, String)> {
+    let (want, want_fin) = if alt { sgr::interpret_alt(data, UlMode::Select) } else { sgr::interpret(data, UlMode::Select) };
     let chunks = gen::split_at_cuts(data, cuts);
     let (got, got_fin) = extract(&chunks);
     if let Some(st) = st {
@@ -213,6 +235,32 @@ pub fn run(cfg: &Cfg) -> Stats {
             }
             idx += n;
         }
+        // a whitespace control (executed, so it is visible text in the style so far) at every position inside every
+        // single-group and some two-group sequences; the sequence itself goes on and takes effect
+        if shard == 0 || n > 1 && shard == 1 {
+            for (gi, (g, _)) in GROUPS.iter().enumerate() {
+                for second in ["", ";1", ";38;5;9"] {
+                    let body = format!("{g}{second}m");
+                    for pos in 0..=body.len() - 1 {
+                        for ws in ["\n", "\t", "\r", "\r\n"] {
+                            if (gi + pos) % 2 != (shard as usize) % 2 && n > 1 {
+                                continue;
+                            }
+                            let mut d = b"one\x1b[".to_vec();
+                            d.extend_from_slice(body[..pos].as_bytes());
+                            d.extend_from_slice(ws.as_bytes());
+                            d.extend_from_slice(body[pos..].as_bytes());
+                            d.extend_from_slice(b"text\x1b[0mz");
+                            eval(&d, &[], &mut st, true, "whitespace-control-inside-sequence");
+                        }
+                    }
+                }
+            }
+            // ... and a sequence that is cut off by the line break and never finished before the next one starts
+            for tail in ["\x1b[31\n\x1b[32mtext", "\x1b[3\n\x1b[1mtext", "\x1b]0;ti\ntle\x07text", "\x1b[38;5\n\x1b[4mtext"] {
+                eval(format!("one{tail}").as_bytes(), &[], &mut st, true, "whitespace-control-inside-sequence");
+            }
+        }
         // sequences that never reach a dispatch, or reach it in an overflowed state, followed by an ordinary SGR sequence:
         // 31..=40 parameters / 0..=4 intermediates, left open or finished, then aborted by ESC / CAN / SUB / nothing
         if shard == 0 {
@@ -313,6 +361,7 @@ pub fn run(cfg: &Cfg) -> Stats {
         }
         st
     });
+    st.exhaustive_parts.push("a whitespace control (LF, TAB, CR, CRLF) at every position inside every single-group sequence (alone, followed by ;1, followed by ;38;5;9)".into());
     st.exhaustive_parts.push("CSI / DCS sequences with 1..40 parameters x 0..4 intermediates, left open / finished, aborted by ESC / CAN / SUB / nothing, followed by ordinary SGR sequences".into());
     st.exhaustive_parts.push("all 256 indexed values and all 256 values of each RGB component for fg / bg / underline colour in both ';' and ':' spellings".into());
     st.exhaustive_parts.push(format!(
